@@ -116,6 +116,29 @@ def run(f, fixture, rep, cfg, tier):
                     else:
                         rep.check("add_openpgp_signature(" not in t, "R2", "%s|no-signature" % n, "clear_signatures adds no signature",
                                   "clear_signatures adds a signature", "%s:%s" % (b.file, st.get("line")))
+    # every successful return replaced the signature header (no early `Ok` that keeps an earlier signer's signatures), and nothing
+    # of the package is touched before the fallible steps succeeded (a failed sign leaves the package as it was)
+    from common import ok_assign_blocks as _okb
+    for n in ("Package::sign_with_timestamp", "Package::clear_signatures"):
+        b = bodies[n]
+        assigns = []
+        passers = []
+        for bb in b.reachable():
+            for st in b.stmts(bb):
+                if st["k"] == "assign" and st["lhs"]["l"] == 1 and "".join(proj_key(p) for p in st["lhs"]["p"] if proj_key(p) != "*") == ".metadata.signature":
+                    assigns.append(bb)
+        for c in b.calls():
+            if c.rpath in allowed_calls or c.decl in allowed_calls or any(c.decl.endswith(x.split("::", 1)[-1]) and "Package::" in c.decl for x in MUTATORS):
+                if any(b.local_ty(op_place(a)["l"]).startswith("&mut ") and "package::Package" in b.local_ty(op_place(a)["l"]) for a in c.args[:1] if op_place(a) is not None):
+                    passers.append(c)
+        oks = _okb(b)
+        rep.check(bool(oks) and all(any(b.dominates(a, o) for a in assigns) for o in oks), "R2", "%s|always-replaces" % n,
+                  "%s: every Ok return follows the replacement of the signature header" % n,
+                  "%s can return Ok(()) without replacing the signature header: an earlier signer's signatures survive (key ids, verification)" % n, b.span)
+        fallible = [c for c in b.calls() if c.decl == "rpm::signature::traits::Signing::sign" or c.decl.endswith("Header::<T>::write") or c.decl.endswith("SignatureHeaderBuilder::build") or re.search(r"SignatureHeaderBuilder(::<.*>)?::build$", c.decl)]
+        early = [w for w in assigns if any(not b.dominates(fc.bb, w) for fc in fallible)] + [c.bb for c in passers if any(not b.dominates(fc.bb, c.bb) for fc in fallible)]
+        rep.check(not early, "R2", "%s|all-or-nothing" % n, "%s changes the package only after signing / serialising succeeded" % n,
+                  "%s modifies the package (directly or through another mutator) before its fallible steps have succeeded: a failed attempt leaves it changed" % n, b.span)
     # sign delegates
     sb = bodies["Package::sign"]
     rep.check(any(c.decl.endswith("Package::sign_with_timestamp") for c in sb.calls()), "R1", "sign|delegates", "sign delegates to sign_with_timestamp",
@@ -200,6 +223,28 @@ def run(f, fixture, rep, cfg, tier):
             rep.check(const_ok and fresh, "R4", "guard|%s" % branch, "the %s branch tests the issuer count of the signature just parsed" % branch,
                       "the %s branch's UnexpectedIssuerCount guard tests %s - not the issuer ids of the signature just parsed" % (branch, operand[:200]),
                       "%s:%s" % (kb.file, kb.term(sbk).get("line")))
+        # the id is printed in full: either the KeyId's own LowerHex impl, or every byte as two hex digits
+        hexes = []
+        work, seenk = [kb], set()
+        while work:
+            cb = work.pop()
+            if cb.path in seenk:
+                continue
+            seenk.add(cb.path)
+            work += f.closures_of(cb)
+            for c in cb.calls():
+                if c.decl.endswith("Argument::<'_>::new_lower_hex") or c.decl.endswith("Argument::<'_>::new_upper_hex"):
+                    hexes.append((cb, c))
+        rep.floor("R4", "hex formatting sites of key ids", len(hexes), 1)
+        for i, (cb, c) in enumerate(hexes):
+            ty = c.gargs[-1] if c.gargs else ""
+            if "KeyId" in ty:
+                rep.ok("R4", "key id #%d printed with KeyId's own LowerHex" % i, c.loc())
+                continue
+            tpl = [x for x in f.fmt if x["file"] == cb.file and x["line"] == c.line]
+            padded = bool(tpl) and all(re.search(r"width: Some\(\w*\(?2\)?\)", pc.get("opts", "")) and "zero_pad: true" in pc.get("opts", "") for x in tpl for pc in x["pieces"] if pc.get("trait") in ("LowerHex", "UpperHex"))
+            rep.check(re.search(r"\bu8\b", ty) is not None and padded, "R4", "key-id-format|#%d" % i, "key id bytes are printed as two hex digits each",
+                      "a key id is printed piecewise (%s) without fixed-width zero padding: an id with a byte below 0x10 loses a digit" % ty, c.loc())
         ret = render(tk.term({"l": 0, "p": [{"d": "Ok"}, {"f": 0, "n": "0"}]}))
         rep.check("pgp::Signature::issuer(" in ret and "self.metadata.signature" in ret, "R4", "reported-ids",
                   "the reported ids are issuer ids of signatures read from the package's signature header",
